@@ -298,3 +298,13 @@ Proof.
   repeat split; try reflexivity; cbv zeta; try (change Gen.Constants.C_MONTHS_PER_YEAR with 12; reflexivity);
   destruct (pd_total_days delta <? 0); lia.
 Qed.
+
+(* pendulum.instance on a native date: pendulum.date(y, m, d), a pendulum Date of the same day; on a pendulum object: the object itself *)
+Theorem glue_pendulum_instance_date o tz : obj_ok o -> is_dt o = false ->
+  glue_pendulum_instance o tz = if is_pdate o then Ok o else Ok (mkgobj 2 (o_wall o) 0 None).
+Proof.
+  intros (Kk & R & F & D & T) Dt. unfold glue_pendulum_instance. rewrite Dt. cbn [negb andb]. destruct (is_pdate o); [reflexivity|].
+  destruct (D Dt) as (_ & M & _). unfold glue_pendulum_date, o_pdate_new, o_year, o_month, o_day.
+  change (g_year (o_gdt o)) with (gd_year (mkgdate (o_wall o))). change (g_month (o_gdt o)) with (gd_month (mkgdate (o_wall o))).
+  change (g_day (o_gdt o)) with (gd_day (mkgdate (o_wall o))). rewrite (date_rebuild (o_wall o) (conj R M)). reflexivity.
+Qed.
